@@ -53,7 +53,7 @@ class BlockCase:
     """one block + documented transfer function; num/den/pre are functions of a symbol getter g(name)"""
 
     def __init__(self, cls=None, params=None, kw=None, num=None, den=None, pre=None, out='B_y', flags=None, note='',
-                 inputs=('uin',), static=None, name=None, integ=False):
+                 inputs=('uin',), static=None, name=None, integ=False, uexpr=None):
         self.cls, self.params, self.kw = cls, params, kw
         self.num, self.den, self.pre, self.out = num, den, pre, out
         self.flags = flags or {}
@@ -61,6 +61,7 @@ class BlockCase:
         self.inputs = inputs
         self.static = static
         self.integ = integ      # contains a pure integrator: an equilibrium exists only for zero input error
+        self.uexpr = uexpr or (lambda g: g('uin'))      # the signal the transfer function acts on (input minus reference)
         self.name = name or cls.__name__
 
 
@@ -133,6 +134,18 @@ def catalogue():
         IBlockCase(BL.PIDController, ['kp', 'ki', 'kd', 'Td'], dict(u='uin', kp='kp', ki='ki', kd='kd', Td='Td'),
                   pid_num, pid_den, pre=lambda g: [g('Td') != 0, g('kd') != 0],
                   note='Td != 0 and kd != 0 (washout time constant must not vanish)'),
+        # reference and initial integrator value given (the defaults 0 hide them): equilibrium at u = ref with y = x0
+        IBlockCase(BL.PIController, ['kp', 'ki', 'ref', 'x0'], dict(u='uin', kp='kp', ki='ki', ref='ref', x0='x0'),
+                  lambda g, s: g('kp') * s + g('ki'), lambda g, s: s, uexpr=lambda g: g('uin') - g('ref'), name='PIController(ref, x0)'),
+        IBlockCase(BL.PIDController, ['kp', 'ki', 'kd', 'Td', 'ref', 'x0'], dict(u='uin', kp='kp', ki='ki', kd='kd', Td='Td', ref='ref', x0='x0'),
+                  pid_num, pid_den, pre=lambda g: [g('Td') != 0, g('kd') != 0], uexpr=lambda g: g('uin') - g('ref'),
+                  name='PIDController(ref, x0)'),
+        IBlockCase(BL.PITrackAW, ['kp', 'ki', 'ks', 'lo', 'up', 'ref', 'x0'],
+                  dict(u='uin', kp='kp', ki='ki', ks='ks', lower='lo', upper='up', ref='ref', x0='x0'),
+                  lambda g, s: g('kp') * s + g('ki'), lambda g, s: s, flags=inlim, uexpr=lambda g: g('uin') - g('ref'), name='PITrackAW(ref, x0)'),
+        IBlockCase(BL.PIDTrackAW, ['kp', 'ki', 'kd', 'Td', 'ks', 'lo', 'up', 'ref', 'x0'],
+                  dict(u='uin', kp='kp', ki='ki', kd='kd', Td='Td', ks='ks', lower='lo', upper='up', ref='ref', x0='x0'),
+                  pid_num, pid_den, pre=lambda g: [g('Td') != 0], flags=inlim, uexpr=lambda g: g('uin') - g('ref'), name='PIDTrackAW(ref, x0)'),
         IBlockCase(BL.PIAWHardLimit, ['kp', 'ki', 'awl', 'awu', 'lo', 'up'],
                   dict(u='uin', kp='kp', ki='ki', aw_lower='awl', aw_upper='awu', lower='lo', upper='up'),
                   lambda g, s: g('kp') * s + g('ki'), lambda g, s: s, flags=inlim),
@@ -243,7 +256,7 @@ def run_case(case):
                 else:
                     cons.append(rhs == 0)
             side = list(eqsmt.CTX.assume)
-            y, u = names[case.out].re, names['uin'].re
+            y, u = names[case.out].re, case.uexpr(g)
             if case.static is not None:
                 claim = y == case.static(g)
                 cons_static = [c for c in cons]
@@ -295,7 +308,7 @@ def run_case(case):
                 res.append(dict(harness='steady', name=label, status='unknown', detail=f'circular v_str: {list(pending)}'))
             else:
                 g2 = lambda n: n2[n].re
-                pre2 = list(path.cond()) + (case.pre(g2) if case.pre else []) + ([g2('uin') == 0] if case.integ else [])
+                pre2 = list(path.cond()) + (case.pre(g2) if case.pre else []) + ([case.uexpr(g2) == 0] if case.integ else [])
                 for vn, v in bvars.items():
                     if v.e_str is None:
                         continue
@@ -487,6 +500,54 @@ def replay_steady(case, vn, md):
     return None
 
 
+OPTION_CASES = None
+
+
+def option_cases():
+    """blocks with one-sided limit options: (class, parameter names, keyword arguments)"""
+    from andes.core import block as BL
+    return [
+        (BL.PIAWHardLimit, ['kp', 'ki', 'awl', 'awu', 'lo', 'up'], dict(u='uin', kp='kp', ki='ki', aw_lower='awl', aw_upper='awu', lower='lo', upper='up')),
+        (BL.PIDAWHardLimit, ['kp', 'ki', 'kd', 'Td', 'awl', 'awu', 'lo', 'up'],
+         dict(u='uin', kp='kp', ki='ki', kd='kd', Td='Td', aw_lower='awl', aw_upper='awu', lower='lo', upper='up')),
+        (BL.PITrackAW, ['kp', 'ki', 'ks', 'lo', 'up'], dict(u='uin', kp='kp', ki='ki', ks='ks', lower='lo', upper='up')),
+        (BL.PIDTrackAW, ['kp', 'ki', 'kd', 'Td', 'ks', 'lo', 'up'], dict(u='uin', kp='kp', ki='ki', kd='kd', Td='Td', ks='ks', lower='lo', upper='up')),
+        (BL.PITrackAWFreeze, ['kp', 'ki', 'ks', 'lo', 'up', 'fr'], dict(u='uin', kp='kp', ki='ki', ks='ks', lower='lo', upper='up', freeze='fr')),
+        (BL.LagAntiWindupRate, ['T', 'K', 'D', 'lo', 'up', 'rl', 'ru'],
+         dict(u='uin', T='T', K='K', D='D', lower='lo', upper='up', rate_lower='rl', rate_upper='ru')),
+        (BL.GainLimiter, ['K', 'R', 'lo', 'up'], dict(u='uin', K='K', R='R', lower='lo', upper='up')),
+    ]
+
+
+def run_options(i):
+    """a block asked for one limit only keeps exactly that limit: the option reaches every limiter inside it, and the real check_var
+    of that limiter flags the requested side (and only that side) for an input beyond it"""
+    from andes.core import discrete as D
+    cls, pn, kw = option_cases()[i]
+    res = []
+    for no_lower, no_upper in ((True, False), (False, True)):
+        label = f'{cls.__name__}(no_lower={no_lower}, no_upper={no_upper})'
+        try:
+            host = make_host(cls, pn, dict(kw, no_lower=no_lower, no_upper=no_upper))
+            host.B.export()
+            lims = [(dn, d) for dn, d in host.B.discrete.items() if isinstance(d, D.Limiter) and not isinstance(d, D.DeadBand)] \
+                if hasattr(host.B, 'discrete') else []
+            lims = lims or [(k, v) for k, v in host.B.__dict__.items() if isinstance(v, D.Limiter) and not isinstance(v, D.DeadBand)]
+            ok = bool(lims)
+            for dn, d in lims:
+                ok = ok and (bool(d.no_lower) is no_lower) and (bool(d.no_upper) is no_upper)
+            res.append(dict(harness='options', name=label + ': every limiter of the block has exactly the requested sides',
+                            status='unsat' if ok else 'sat-replayed', secs=0.0))
+            if not ok:
+                res.append(dict(kind='violation', harness='options', region=label,
+                                desc=f'{label}: limiter options inside the block are ' + ', '.join(f'{dn}(no_lower={d.no_lower}, no_upper={d.no_upper})' for dn, d in lims),
+                                replay=dict(block=cls.__name__, no_lower=no_lower, no_upper=no_upper)))
+        except Exception as e:
+            res.append(dict(kind='error', msg=f'{label}: {type(e).__name__}: {e} {traceback.format_exc()[-300:]}'))
+    res.append(dict(kind='encodes', functions={core.qualname(cls.__init__): core.src_sha(cls.__init__)}))
+    return res
+
+
 def main():
     ck = core.Check(PID, 'other',
                     'Laplace-domain identity per block: the declared equations of the real block (read back from a host '
@@ -502,6 +563,7 @@ def main():
     cases = catalogue()
     res = core.pmap(run_case_idx, list(range(len(cases))))
     ck.merge(res)
+    ck.merge(core.pmap(run_options, list(range(len(option_cases())))))
     ck.finish()
 
 
